@@ -38,8 +38,11 @@ template void d::BitWriteStreamT<100>::write<20>(uint32_t);
 template uint8_t d::BitReadStreamT<100>::read<5>();
 template uint16_t d::BitReadStreamT<100>::read<12>();
 template uint32_t d::BitReadStreamT<100>::read<20>();
+bool leafcode_use_static_array(d::StaticArrayT<uint8_t, 5>& a) { a.fill(uint8_t(1)); a.clear(); return a.empty(); }      // (the whole class cannot be instantiated: its iterators do not compile)
 template class d::TaskListT<void, 5>;
 template ffsm2::Long d::TaskListT<void, 5>::emplace<const ffsm2::StateID&, const ffsm2::StateID&>(const ffsm2::StateID&, const ffsm2::StateID&);
+using LeafcodeArgs = d::ArgsT<d::G_<0, ffsm2::EmptyContext, ffsm2::Automatic, 4, 5, void>, d::TL_<int, long, short>, 2, 5, void>;
+template class d::PlanT<LeafcodeArgs>;
 uint32_t leafcode_use_bitWidth(uint32_t v) { return ffsm2::bitWidth(v); }
 """
 
@@ -82,7 +85,11 @@ def kids(n): return [c for c in n.get("inner", []) if c]           # null childr
 
 class Fn:
     """translation of one function body"""
-    def __init__(self, params, class_consts):
+    def __init__(self, params, class_consts, this_prefix="", const_prefix=""):
+        self.this_prefix = this_prefix      # access path of the object the function runs in (inlined member functions of sub-objects)
+        self.const_prefix = const_prefix    # qualifier of that object's class constants
+        self.owner = None                   # label of the class the function is a member of (None: not tracked)
+        self.ret_mode = None                # inlined function with a result: ("assign", local) turns `return e` into an assignment
         self.locals = {}          # decl id -> emitted name
         self.names = {}           # emitted name -> count (shadowing)
         self.alias = {}           # decl id -> lvalue (reference locals, range-for element variables)
@@ -115,7 +122,7 @@ class Fn:
     def path(self, n):
         """access path of an object / array designator: this-> is the empty prefix"""
         k = n["kind"]
-        if k == "CXXThisExpr": return ""
+        if k == "CXXThisExpr": return self.this_prefix
         if k in ("ParenExpr",): return self.path(kids(n)[0])
         if k == "ImplicitCastExpr" and n.get("castKind") in ("NoOp", "ArrayToPointerDecay", "UncheckedDerivedToBase", "DerivedToBase"): return self.path(kids(n)[0])
         if k == "MemberExpr":
@@ -138,6 +145,10 @@ class Fn:
             if callee["kind"] == "DeclRefExpr" and callee["referencedDecl"].get("name") in ("forward", "move") and len(ks) == 2: return self.lvalue(ks[1])
             raise Unsupported("call used as an lvalue")
         if k == "ImplicitCastExpr" and n.get("castKind") == "NoOp": return self.lvalue(kids(n)[0])
+        if k in ("CXXMemberCallExpr", "CXXOperatorCallExpr"):            # an accessor returning a reference: the lvalue its return statement names
+            fd, obj, args = self.callee_of(n); r = accessor_return(fd)
+            if r is None: raise Unsupported("call of %s used as an lvalue" % fd.get("name"))
+            return self.sub_fn(fd, obj, args).lvalue(r)
         if k == "DeclRefExpr":
             rd = n["referencedDecl"]; rid = rd["id"]
             if rid in self.alias:
@@ -145,7 +156,12 @@ class Fn:
                 if a[0] in ("object", "array"): raise Unsupported("whole-object use of %s" % rd.get("name"))
                 return a
             if rid in self.locals: return ("local", self.locals[rid])
-            if rd.get("kind") == "VarDecl" and rd.get("name") in self.class_consts: return ("const", rd["name"])
+            vo = AST_VAROWNER.get(rd["id"])
+            if rd.get("kind") == "VarDecl" and rd.get("name") in self.class_consts and (vo is None or self.owner is None or vo == self.owner):
+                return ("const", self.const_prefix + rd["name"])
+            if rd.get("kind") == "VarDecl" and rd["id"] in AST_VAROWNER:           # a static constant of another class: symbolic, qualified by that class's name
+                return ("const", OWNER_CLASS[AST_VAROWNER[rd["id"]]] + "::" + rd["name"])
+            if rd.get("kind") == "VarDecl" and rd["id"] in AST_GLOBALS: return ("global", rd["id"])
             raise Unsupported("reference to %s %s" % (rd.get("kind"), rd.get("name")))
         if k == "MemberExpr":
             if "[" in qual(n): raise Unsupported("array member used as a value")
@@ -154,7 +170,7 @@ class Fn:
                 base = kids(base)[0]          # through an anonymous union / to the base class that declares the member
             if base["kind"] == "DeclRefExpr" and self.alias.get(base["referencedDecl"]["id"], ("",))[0] == "elemobj":
                 _, arr, idx = self.alias[base["referencedDecl"]["id"]]
-                return ("elem", arr + "." + UNION_CANON.get(n["name"], n["name"]), idx)
+                return ("elem", arr + "." + UNION_BY_ID.get(n.get("referencedMemberDecl"), n["name"]), idx)
             return ("field", self.path(n))
         if k == "ArraySubscriptExpr":
             a, i = kids(n)
@@ -166,6 +182,13 @@ class Fn:
         if lv[0] == "field": return "EField %s" % coq_str(lv[1])
         if lv[0] == "elem": return "EElem %s (%s)" % (coq_str(lv[1]), lv[2])
         if lv[0] == "const": return "EConst %s" % coq_str(lv[1])
+        if lv[0] == "subst": return lv[1]
+        if lv[0] == "global":
+            # a namespace-scope constant (static constexpr T NAME = init): its initialiser, converted to its type
+            v = AST_GLOBALS[lv[1]]; init = [c for c in kids(v) if "Comment" not in c.get("kind", "")]
+            if len(init) != 1: raise Unsupported("constant %s without initialiser" % v.get("name"))
+            sub = Fn([], set()); e = sub.expr(init[0]); self.calls.update(sub.calls)
+            return e if ity(init[0]) == ity(v) else "ECast %s (%s)" % (ity(v), e)
         raise Unsupported("read of %r" % (lv,))
 
     def write(self, lv, e):
@@ -185,7 +208,7 @@ class Fn:
         if k == "SubstNonTypeTemplateParmExpr":
             pd = [c for c in kids(n) if c.get("kind") == "NonTypeTemplateParmDecl"]
             if len(pd) != 1 or not pd[0].get("name"): raise Unsupported("template parameter without a name")
-            return "EConst %s" % coq_str(pd[0]["name"])
+            return "EConst %s" % coq_str(self.const_prefix + pd[0]["name"])
         if k in ("ImplicitCastExpr", "CXXStaticCastExpr", "CXXFunctionalCastExpr", "CStyleCastExpr"):
             ck = n.get("castKind"); (c,) = kids(n)[-1:]
             if ck == "LValueToRValue": return self.read(self.lvalue(c))
@@ -215,6 +238,10 @@ class Fn:
             raise Unsupported("unary operator %s in an expression" % op)
         if k == "ConditionalOperator":
             c, a, b = kids(n); return "ECond (%s) (%s) (%s)" % (self.expr(c), self.expr(a), self.expr(b))
+        if k in ("CXXMemberCallExpr", "CXXOperatorCallExpr"):            # an accessor (`return <expression>;`): that expression, in the callee's object
+            fd, obj, args = self.callee_of(n); r = accessor_return(fd)
+            if r is None: raise Unsupported("call of the member function %s inside an expression" % fd.get("name"))
+            return self.sub_fn(fd, obj, args).expr(r)
         if k == "CallExpr":
             ks = kids(n); callee = ks[0]
             while callee["kind"] in ("ImplicitCastExpr", "ParenExpr"): callee = kids(callee)[0]
@@ -222,8 +249,10 @@ class Fn:
             rd = callee["referencedDecl"]
             owner = AST_OWNER.get(rd["id"], "") if rd.get("kind") == "CXXMethodDecl" else ""       # a static member function called without an object
             name = call_name((owner + "__" if owner else "") + rd["name"], rd["type"]["qualType"], AST_NODE.get(rd["id"]))
+            if len(ks) == 1: name += "_r" + SHORT[ity(n)]            # no parameters: instantiations differ in the result type only
             self.calls.add((rd["id"], rd["name"], rd["type"]["qualType"], name))
             args = [self.expr(a) for a in ks[1:]]
+            if len(args) == 0: return "ECall0 %s" % coq_str(name)
             if len(args) == 1: return "ECall1 %s (%s)" % (coq_str(name), args[0])
             if len(args) == 2: return "ECall2 %s (%s) (%s)" % (coq_str(name), args[0], args[1])
             raise Unsupported("call with %d arguments" % len(args))
@@ -247,6 +276,85 @@ class Fn:
         if k in ("MemberExpr", "ArraySubscriptExpr", "CallExpr", "CXXThisExpr"): return False
         return all(self.stable_index(c) for c in kids(n) if c.get("kind") not in ("NonTypeTemplateParmDecl",))
 
+    # ---------- member functions of this object and of its sub-objects ----------
+    def callee_of(self, n):
+        """a member call `obj.f(args)` / `obj[args]` -> (declaration with a body, access path of obj, argument nodes)"""
+        ks = kids(n)
+        if n["kind"] == "CXXMemberCallExpr":
+            callee = ks[0]
+            while callee["kind"] == "ParenExpr": callee = kids(callee)[0]
+            if callee["kind"] != "MemberExpr": raise Unsupported("member call shape")
+            fid = callee.get("referencedMemberDecl"); objn = kids(callee)[0]; args = ks[1:]
+        else:
+            c = ks[0]
+            while c["kind"] in ("ImplicitCastExpr", "ParenExpr"): c = kids(c)[0]
+            if c["kind"] != "DeclRefExpr" or c["referencedDecl"].get("kind") != "CXXMethodDecl": raise Unsupported("operator call on a non-member")
+            fid = c["referencedDecl"]["id"]; objn = ks[1]; args = ks[2:]
+        fd = AST_NODE.get(fid)
+        if fd is None or not body_of(fd): raise Unsupported("member function %s has no body in the AST" % (fd or {}).get("name", fid))
+        if fd.get("storageClass") == "static" or fd.get("virtual"): raise Unsupported("static / virtual member call")
+        return fd, self.path(objn), args
+
+    def sub_fn(self, fd, obj, args=None, subst=True):
+        """translation context of the member function fd running in the object at path obj; with subst, its (scalar, by-value or const-reference)
+        parameters stand for the argument expressions - only used for accessors, whose single expression reads each parameter at most in one place"""
+        owner = AST_OWNER.get(fd["id"])
+        cp = self.const_prefix if obj == self.this_prefix and owner == self.owner else (obj + "::" if obj else "")
+        sub = Fn([], OWNER_CONSTS.get(owner, set()), this_prefix=obj, const_prefix=cp); sub.owner = owner
+        sub.names = self.names; sub.order = self.order; sub.calls = self.calls; sub.assigned = self.assigned
+        if subst and args is not None:
+            ps = params_of(fd)
+            if len(ps) != len(args): raise Unsupported("default arguments")
+            for p, a in zip(ps, args):
+                if (is_ref(p) and not is_const_qualified(p)) or "*" in qual(p) or strip_cv(qual(p)) not in TYPEMAP: raise Unsupported("parameter %s of an accessor" % p.get("name"))
+                sub.alias[p["id"]] = ("subst", self.arg_value(p, a))
+        return sub
+
+    def arg_value(self, p, a):
+        """value of the argument a bound to the scalar parameter p (by value, or by const reference: the object named is read at the call)"""
+        if is_ref(p):
+            if ity(a) != ity(p): raise Unsupported("reference parameter bound through a conversion")
+            return self.read(self.lvalue(a))
+        e = self.expr(a)
+        return e if ity(a) == ity(p) else "ECast %s (%s)" % (ity(p), e)
+
+    def struct_elem(self, n):
+        """an lvalue of struct type that designates an array element -> (path of the array, index expression)"""
+        n = strip_noop(n)
+        if n["kind"] == "ArraySubscriptExpr":
+            a, i = kids(n); return self.path(a), self.expr(i)
+        if n["kind"] in ("CXXMemberCallExpr", "CXXOperatorCallExpr"):
+            fd, obj, args = self.callee_of(n); r = accessor_return(fd)
+            if r is None: raise Unsupported("call of %s used as an object" % fd.get("name"))
+            return self.sub_fn(fd, obj, args).struct_elem(r)
+        raise Unsupported("struct designator kind %s" % n["kind"])
+
+    def inline_call(self, n, ret):
+        """a call of a member function with a compound body, as a statement: the parameters become fresh locals, then the body runs in the callee's object.
+        ret: ("void",) | ("assign", local) | ("return",).  Except in return mode every return statement of the callee must be in tail position."""
+        fd, obj, args = self.callee_of(n)
+        rt = strip_cv(qual(n))
+        if ret[0] == "void" and rt != "void" and rt not in TYPEMAP: raise Unsupported("discarded result of type %s" % rt)
+        if ret[0] != "void" and rt not in TYPEMAP: raise Unsupported("result of type %s" % rt)
+        if ret[0] != "return" and not tail_returns_only(body_of(fd)): raise Unsupported("inlined member function %s returns early" % fd.get("name"))
+        sub = self.sub_fn(fd, obj, subst=False); sub.ret_mode = ret if ret[0] != "return" else None
+        if ret[0] == "void" and rt != "void": sub.ret_mode = ("discard",)
+        ps = params_of(fd)
+        if len(ps) != len(args): raise Unsupported("default arguments")
+        binds = []
+        for p, a in zip(ps, args):
+            if (is_ref(p) and not is_const_qualified(p)) or "*" in qual(p) or strip_cv(qual(p)) not in TYPEMAP: raise Unsupported("reference parameter of an inlined call")
+            name = sub.declare(p)
+            if is_const_qualified(p): sub.const_local.add(p["id"])
+            an = strip_noop(a)
+            if an["kind"] in ("CXXMemberCallExpr", "CXXOperatorCallExpr") and accessor_return(self.callee_of(an)[0]) is None:
+                if ity(an) != ity(p): raise Unsupported("conversion of an inlined result")
+                binds.append(self.inline_call(an, ("assign", name)))
+            else:
+                binds.append("SLocal %s (%s)" % (coq_str(name), self.arg_value(p, a)))
+        body = sub.stmt(body_of(fd))
+        return self.seq(binds + [body])
+
     # ---------- statements ----------
     def seq(self, ss):
         ss = [s for s in ss if s != "SSkip"]
@@ -263,16 +371,16 @@ class Fn:
         if k != "VarDecl": raise Unsupported("declaration kind %s" % k)
         init = kids(d)
         init = [c for c in init if c.get("kind") not in ("FullComment",)]
-        if is_ref(d) and len(init) == 1 and strip_noop(init[0])["kind"] == "ArraySubscriptExpr" and strip_cv(qual(init[0])) not in TYPEMAP:
+        if is_ref(d) and len(init) == 1 and strip_noop(init[0])["kind"] in ("ArraySubscriptExpr", "CXXMemberCallExpr", "CXXOperatorCallExpr") and strip_cv(qual(init[0])) not in TYPEMAP:
             # a reference to an element of an array of structs: the index is evaluated now (a reference stays bound to that element), members are reached
             # through one array per field ("_items.origin")
-            a, i = kids(strip_noop(init[0]))
+            apath, iexpr = self.struct_elem(init[0])
             hidden = (d.get("name") or "ref") + "#idx"
             k = self.names.get(hidden, 0); self.names[hidden] = k + 1
             if k: hidden = "%s'%d" % (hidden, k)
             self.order.append(hidden)
-            self.alias[d["id"]] = ("elemobj", self.path(a), "EVar %s" % coq_str(hidden))
-            return "SLocal %s (%s)" % (coq_str(hidden), self.expr(i))
+            self.alias[d["id"]] = ("elemobj", apath, "EVar %s" % coq_str(hidden))
+            return "SLocal %s (%s)" % (coq_str(hidden), iexpr)
         if is_ref(d):
             if len(init) != 1: raise Unsupported("reference without initialiser")
             lv = self.lvalue(init[0]) if "[" not in strip_cv(qual(init[0])) else ("array", self.path(init[0]))
@@ -284,6 +392,11 @@ class Fn:
         if "[" in qual(d) or "*" in qual(d): raise Unsupported("local of type %s" % qual(d))
         t = ity(d)
         if len(init) != 1: raise Unsupported("local %s without initialiser" % d.get("name"))
+        i0 = strip_noop(init[0])
+        if i0["kind"] in ("CXXMemberCallExpr", "CXXOperatorCallExpr") and accessor_return(self.callee_of(i0)[0]) is None and ity(i0) == t:
+            name = self.declare(d)
+            if is_const_qualified(d): self.const_local.add(d["id"])
+            return self.inline_call(i0, ("assign", name))
         e = self.expr(init[0])
         if ity(init[0]) != t: e = "ECast %s (%s)" % (t, e)
         name = self.declare(d)
@@ -315,6 +428,16 @@ class Fn:
         if k == "DeclStmt": return self.seq([self.decl(d) for d in kids(n)])
         if k == "ReturnStmt":
             ks = kids(n)
+            if ks and strip_noop(ks[0])["kind"] in ("CXXMemberCallExpr", "CXXOperatorCallExpr") and accessor_return(self.callee_of(strip_noop(ks[0]))[0]) is None:
+                # return obj.f(args): f's body, whose return statements return from (or assign the result of) this function
+                c = strip_noop(ks[0])
+                if self.ret_mode and self.ret_mode[0] in ("void", "discard"): return self.inline_call(c, ("void",))
+                return self.inline_call(c, self.ret_mode or ("return",))
+            if self.ret_mode:                                        # this body is inlined at a call site and the statement is in tail position
+                if self.ret_mode[0] == "assign":
+                    if not ks: raise Unsupported("return without a value")
+                    return self.write(("local", self.ret_mode[1]), self.expr(ks[0]))
+                return "SSkip"                                       # void / discarded result (expressions have no side effects)
             return "SReturn (%s)" % self.expr(ks[0]) if ks else "SReturnVoid"
         if k == "IfStmt":
             ks = kids(n)
@@ -341,6 +464,7 @@ class Fn:
             return self.write(lv, e)
         if k == "UnaryOperator" and n["opcode"] in ("++", "--"): return self.incdec(n)
         if k == "CXXNewExpr": return self.placement_new(n)
+        if k in ("CXXMemberCallExpr", "CXXOperatorCallExpr"): return self.inline_call(n, ("void",))
         raise Unsupported("statement kind %s" % k)
 
     def for_stmt(self, n):
@@ -422,7 +546,28 @@ class Fn:
         args = kids(ctor[0]); cls = strip_cv(qual(ctor[0])).split("::")[-1].split("<")[0]
         inits = ctor_inits(cls, len(args))
         if inits is None: raise Unsupported("constructor of %s with %d arguments is not a plain member-wise initialiser" % (cls, len(args)))
-        return self.seq(["SSetElem %s (%s) (%s)" % (coq_str(arr + "." + UNION_CANON.get(f, f)), idx, self.expr(args[k])) for f, k in inits])
+        return self.seq(["SSetElem %s (%s) (%s)" % (coq_str(arr + "." + UNION_BY_ID.get(fid, f)), idx, self.expr(args[k])) for f, k, fid in inits])
+
+    def inline_this_call(self, n):
+        """this->f(args); for a void member function f whose body is translatable and does not return early: the arguments are bound to fresh locals,
+        then f's body runs in the caller's object"""
+        ks = kids(n); callee = ks[0]
+        if callee["kind"] != "MemberExpr" or kids(callee)[0]["kind"] != "CXXThisExpr": raise Unsupported("member call on another object")
+        fd = AST_NODE.get(callee.get("referencedMemberDecl"))
+        if fd is None or not body_of(fd): raise Unsupported("member function %s has no body in the AST" % callee.get("name"))
+        if strip_cv(fd["type"]["qualType"].split("(")[0]) != "void": raise Unsupported("call of a non-void member function as a statement")
+        sub = Fn([], self.class_consts); sub.names = self.names; sub.order = self.order; sub.alias = dict(self.alias); sub.calls = self.calls
+        binds = []
+        for p, a in zip(params_of(fd), ks[1:]):
+            if is_ref(p) or "*" in qual(p): raise Unsupported("reference parameter of an inlined call")
+            e = self.expr(a)
+            if ity(a) != ity(p): e = "ECast %s (%s)" % (ity(p), e)
+            name = sub.declare(p); binds.append("SLocal %s (%s)" % (coq_str(name), e))
+            if is_const_qualified(p): sub.const_local.add(p["id"])
+        body = sub.stmt(body_of(fd))
+        if "SReturn" in body: raise Unsupported("inlined member function returns early")
+        self.assigned |= sub.assigned
+        return self.seq(binds + [body])
 
     def expr_stmt(self, n): return self.stmt(n)
 
@@ -444,6 +589,32 @@ class Fn:
             name = self.declare(var); pre = "SLocal %s (%s)" % (coq_str(name), self.read(elem))
         b = self.seq([pre, self.stmt(body)])
         return "SForRange %s TU64 (EInt 0) (ELen %s)\n(%s)" % (coq_str(idx), coq_str(a), b)
+
+def plain_stmts(body):
+    """statements of a function body without the compiled-out assertions ((void) 0) and empty statements"""
+    return [c for c in kids(body) if not (c["kind"] == "NullStmt" or (c["kind"] in ("ParenExpr", "CStyleCastExpr", "ImplicitCastExpr") and strip_cv(qual(c)) == "void"))]
+
+def accessor_return(fd):
+    """the returned expression if the body of fd is `return <expression>;` (assertions aside), else None"""
+    ss = plain_stmts(body_of(fd))
+    if len(ss) == 1 and ss[0]["kind"] == "ReturnStmt" and kids(ss[0]): return kids(ss[0])[0]
+    return None
+
+def has_return(n):
+    if n.get("kind") == "ReturnStmt": return True
+    return any(has_return(c) for c in kids(n))
+
+def tail_returns_only(n):
+    """is every return statement under n the last thing executed on its path through n?"""
+    k = n.get("kind")
+    if k == "ReturnStmt": return True
+    if k == "CompoundStmt":
+        ks = kids(n)
+        return all(not has_return(c) for c in ks[:-1]) and (not ks or tail_returns_only(ks[-1]))
+    if k == "IfStmt":
+        ks = kids(n)
+        return not has_return(ks[0]) and all(tail_returns_only(c) for c in ks[1:])
+    return not has_return(n)
 
 def uses_continue(n):
     if n.get("kind") in ("ContinueStmt", "BreakStmt", "GotoStmt"): return True
@@ -545,7 +716,7 @@ def methods(spec):
     """-> list of (name, template args, decl with body)"""
     out = []
     for c in spec.get("inner", []):
-        if c.get("kind") == "CXXMethodDecl" and body_of(c): out.append((c["name"], (), c))
+        if c.get("kind") in ("CXXMethodDecl", "CXXConversionDecl") and body_of(c): out.append((c["name"], (), c))
         if c.get("kind") == "FunctionTemplateDecl":
             for m in c.get("inner", []):
                 if m.get("kind") == "CXXMethodDecl" and body_of(m) and targ_values(m): out.append((m["name"], targ_values(m), m))
@@ -566,22 +737,20 @@ def indent(term, ind="  "):
         depth += line.count("(") - line.count(")")
     return "\n".join(out)
 
-CLASSES = [("TaskListT", ("void", 5)), ("BitArrayT", (13,)), ("BitArrayT", (300,)), ("StreamBufferT", (100,)), ("BitWriteStreamT", (100,)), ("BitReadStreamT", (100,))]
+CLASSES = [("PlanT", None), ("StaticArrayT", ("unsigned char", 5)), ("TaskListT", ("void", 5)), ("BitArrayT", (13,)), ("BitArrayT", (300,)), ("StreamBufferT", (100,)), ("BitWriteStreamT", (100,)), ("BitReadStreamT", (100,))]
 
-UNION_CANON = {}    # member of an anonymous union -> the first member of that union (they share storage)
+UNION_BY_ID = {}    # id of a member of an anonymous union -> name of the first member of that union (they share storage)
 CTORS = {}          # class name -> [(number of parameters, [(field, parameter index)] or None)]
 BASES = {}          # class name -> base class names
 def index_records(ast):
-    UNION_CANON.clear(); CTORS.clear(); BASES.clear()
+    UNION_BY_ID.clear(); CTORS.clear(); BASES.clear()
     def rec(n):
         if n.get("kind") in ("CXXRecordDecl", "ClassTemplateSpecializationDecl") and n.get("completeDefinition"):
             name = n.get("name")
             for c in n.get("inner", []):
                 if c.get("kind") == "CXXRecordDecl" and not c.get("name") and c.get("tagUsed") == "union":
-                    fs = [f["name"] for f in c.get("inner", []) if f.get("kind") == "FieldDecl" and f.get("name")]
-                    for f in fs[1:]:
-                        if UNION_CANON.get(f, fs[0]) != fs[0]: UNION_CANON[f] = "<ambiguous>"
-                        else: UNION_CANON[f] = fs[0]
+                    fs = [f for f in c.get("inner", []) if f.get("kind") == "FieldDecl" and f.get("name")]
+                    for f in fs[1:]: UNION_BY_ID[f["id"]] = fs[0]["name"]
                 if c.get("kind") == "CXXConstructorDecl" and name:
                     ps = [p for p in c.get("inner", []) if p.get("kind") == "ParmVarDecl"]
                     body = [b for b in c.get("inner", []) if b.get("kind") == "CompoundStmt"]
@@ -591,7 +760,7 @@ def index_records(ast):
                         f = (x.get("anyInit") or {}).get("name"); e = kids(x)
                         while e and e[0]["kind"] in ("ImplicitCastExpr", "ParenExpr", "InitListExpr") and len(kids(e[0])) == 1: e = kids(e[0])
                         if f and e and e[0]["kind"] == "DeclRefExpr" and e[0]["referencedDecl"]["id"] in [p["id"] for p in ps]:
-                            inits.append((f, [p["id"] for p in ps].index(e[0]["referencedDecl"]["id"])))
+                            inits.append((f, [p["id"] for p in ps].index(e[0]["referencedDecl"]["id"]), x["anyInit"].get("id")))
                         elif x.get("anyInit") is None: pass          # a base-class initialiser: not supported
                         else: ok = False
                     CTORS.setdefault(name, []).append((len(ps), inits if ok and len(inits) == len(ps) else None))
@@ -611,20 +780,27 @@ def ctor_inits(cls, arity):
         cls = bs[0] if len(bs) == 1 else None            # an inherited constructor (using Base::Base)
     return None
 
+AST_GLOBALS = {}    # id -> VarDecl of a namespace-scope constant
 AST_OWNER = {}      # id of a member function -> label of the class template specialisation it belongs to
 AST_NODE = {}       # id -> node (function declarations only)
+AST_VAROWNER = {}   # id of a static constexpr data member -> label of its class template specialisation
+OWNER_CLASS = {}    # label of a class template specialisation -> name of the template
+OWNER_CONSTS = {}   # label of a class template specialisation -> names of its static constexpr data members
 def index_ast(ast):
-    AST_OWNER.clear(); AST_NODE.clear()
-    def go(n, owner):
+    AST_OWNER.clear(); AST_NODE.clear(); AST_GLOBALS.clear(); AST_VAROWNER.clear(); OWNER_CONSTS.clear()
+    def go(n, owner, depth=0, infn=False, ownername=""):
         k = n.get("kind")
+        if k == "VarDecl" and not infn and not owner and (n.get("constexpr") or is_const_qualified(n)) and "id" in n: AST_GLOBALS[n["id"]] = n
         if k == "ClassTemplateSpecializationDecl" and n.get("name"):
-            owner = "%s_%s" % (n["name"], "_".join(targ_id(a) for a in targ_values(n)))
+            owner = "%s_%s" % (n["name"], "_".join(targ_id(a) for a in targ_values(n))); ownername = n["name"]
+        if k == "VarDecl" and not infn and owner and n.get("storageClass") == "static" and "id" in n:
+            AST_VAROWNER[n["id"]] = owner; OWNER_CLASS[owner] = ownername; OWNER_CONSTS.setdefault(owner, set()).add(n.get("name"))
         if k in ("FunctionDecl", "CXXMethodDecl") and "id" in n:
             AST_NODE.setdefault(n["id"], n)
             if body_of(n) or n["id"] not in AST_NODE or not body_of(AST_NODE[n["id"]]): AST_NODE[n["id"]] = n
             if owner: AST_OWNER[n["id"]] = owner
         for c in n.get("inner", []):
-            if c: go(c, owner)
+            if c: go(c, owner, depth + 1, infn or k in ("FunctionDecl", "CXXMethodDecl", "CXXConstructorDecl"), ownername)
     go(ast, "")
 
 def translate(ast):
@@ -632,7 +808,7 @@ def translate(ast):
     defs = []; notes = []; calls = set(); names = []
     def emit_method(cname, fd, consts, label):
         try:
-            f = Fn(params_of(fd), consts)
+            f = Fn(params_of(fd), consts); f.owner = AST_OWNER.get(fd["id"])
             body = f.stmt(body_of(fd))
             calls.update(f.calls)
             locs = [v for v in f.order if v not in f.params]
@@ -642,12 +818,12 @@ def translate(ast):
             notes.append("%s: %s" % (label, e))
         names.append(label)
     for cname, targs in CLASSES:
-        specs = [s for s in class_specs(ast, cname) if targ_values(s) == targs]
+        specs = [s for s in class_specs(ast, cname) if targs is None or targ_values(s) == targs]
         if not specs:
             notes.append("%s<%s>: no instantiation found" % (cname, targs)); continue
         spec = specs[-1]
         cdefs = class_const_defs(spec); consts = {c[0] for c in cdefs}
-        prefix = "%s_%s" % (cname, "_".join(targ_id(a) for a in targs))
+        prefix = "%s_%s" % (cname, "_".join(targ_id(a) for a in targs)) if targs is not None else cname
         tparams = set()
         for n in walk(spec):
             if n.get("kind") == "SubstNonTypeTemplateParmExpr":
@@ -656,7 +832,7 @@ def translate(ast):
         lines = []
         for name, vd, init in cdefs:
             try:
-                f = Fn([], consts)
+                f = Fn([], consts); f.owner = "%s_%s" % (spec["name"], "_".join(targ_id(a) for a in targ_values(spec)))
                 e = f.expr(init); calls.update(f.calls)
                 if ity(init) != ity(vd): e = "ECast %s (%s)" % (ity(vd), e)
                 lines.append("  (%s, %s)" % (coq_str(name), e))
